@@ -37,7 +37,7 @@ def run(chk):
                 nv = max(mix) + rng.randrange(0, 5)
                 c = random_cover(rng, mix, nv, rng.randrange(len(mix), len(mix) + 4), base)
                 if c:
-                    cs.append({"kind": "cover", "cover": c, "seed": rng.randrange(1 << 30)})
+                    cs.append({"kind": "cover", "cover": c, "seed": rng.randrange(1 << 30), "compose_n": [0, 1, 2, 3][rep % 4]})
     # exhaustive small family: all covers made of <= 2 cliques over vertices 0..3 (and 1..4)
     cl = [list(c) for s in (2, 3, 4) for c in itertools.combinations(range(4), s)]
     for r in (1, 2):
